@@ -559,6 +559,11 @@ type Comparer interface {
 	Cmp(e *Engine, st *State, op token.Token, x, y AV) (AV, bool)
 }
 
+// IndexObserver is implemented by domains that want to see every element access x[idx] (the index as an abstract value).
+type IndexObserver interface {
+	ObserveIndex(e *Engine, st *State, x, idx AV, site *ssa.IndexAddr)
+}
+
 // Alt is one of several outcomes of an instruction a domain evaluates itself.
 type Alt struct {
 	St  *State
@@ -600,6 +605,8 @@ type Engine struct {
 	Stop func(st *State) bool
 	// Unmodelled counts instructions whose result was left unknown, by kind (evidence).
 	Unmodelled map[string]int
+	// TraceMake: every slice allocation is recorded as a "make" event with its length.
+	TraceMake bool
 	// Cur is the instruction being evaluated (for domains whose answer depends on where a comparison stands).
 	Cur ssa.Instruction
 }
@@ -1166,6 +1173,11 @@ func (e *Engine) doCall(fr *frame, st *State, in ssa.CallInstruction) []CallOut 
 			for _, a := range c.Args {
 				args = append(args, e.val(fr, st, a))
 			}
+			if (f.Name() == "min" || f.Name() == "max") && len(args) >= 2 {
+				if outs, ok := e.minMax(st, f.Name() == "min", args); ok {
+					return outs
+				}
+			}
 			return []CallOut{{St: st, Res: []AV{e.builtin(st, f.Name(), args, c)}}}
 		default:
 			if fv, ok := e.val(fr, st, c.Value).(avFunc); ok {
@@ -1196,6 +1208,60 @@ func (e *Engine) doCall(fr *frame, st *State, in ssa.CallInstruction) []CallOut 
 		res[i] = avSym{id: e.fresh(), tag: "ret:" + name}
 	}
 	return []CallOut{{St: st, Res: res}}
+}
+
+// minMax: the built-in min / max of integers, decided by the path's facts or forked on the comparison of its operands.
+func (e *Engine) minMax(st *State, isMin bool, args []AV) ([]CallOut, bool) {
+	for _, a := range args {
+		switch a.(type) {
+		case avConst, avSym, avBin:
+		default:
+			return nil, false
+		}
+		if c, ok := a.(avConst); ok && c.v.Kind() != constant.Int {
+			return nil, false
+		}
+	}
+	type alt struct {
+		st *State
+		v  AV
+	}
+	alts := []alt{{st, args[0]}}
+	for _, b := range args[1:] {
+		var next []alt
+		for _, a := range alts {
+			// keep a.v when it is the smaller (min) / the larger (max) of the two
+			op := token.LEQ
+			if !isMin {
+				op = token.GEQ
+			}
+			cond := e.binop(a.st, op, a.v, b)
+			if c, ok := cond.(avConst); ok && c.v.Kind() == constant.Bool {
+				if constant.BoolVal(c.v) {
+					next = append(next, a)
+				} else {
+					next = append(next, alt{a.st, b})
+				}
+				continue
+			}
+			if cond == nil {
+				return nil, false
+			}
+			s2 := a.st.clone()
+			if a.st.assume(cond, true, token.NoPos) {
+				next = append(next, alt{a.st, a.v})
+			}
+			if s2.assume(cond, false, token.NoPos) {
+				next = append(next, alt{s2, b})
+			}
+		}
+		alts = next
+	}
+	var outs []CallOut
+	for _, a := range alts {
+		outs = append(outs, CallOut{St: a.st, Res: []AV{a.v}})
+	}
+	return outs, len(outs) > 0
 }
 
 func (e *Engine) builtin(st *State, name string, args []AV, c *ssa.CallCommon) AV {
@@ -1334,6 +1400,9 @@ func (e *Engine) eval(fr *frame, st *State, in ssa.Value) AV {
 		return nil
 	case *ssa.IndexAddr:
 		idx := "[*]"
+		if ob, ok := e.D.(IndexObserver); ok {
+			ob.ObserveIndex(e, st, e.val(fr, st, in.X), e.val(fr, st, in.Index), in)
+		}
 		if c, ok := st.KnownInt(e.val(fr, st, in.Index)); ok {
 			idx = fmt.Sprintf("[%d]", c)
 		}
@@ -1525,6 +1594,9 @@ func (e *Engine) eval(fr *frame, st *State, in ssa.Value) AV {
 		}
 		o := e.NewObj("", in.Type())
 		o.of = e.val(fr, st, in.Len)
+		if e.TraceMake {
+			st.event(Event{Kind: "make", Args: []AV{o.of}, Pos: in.Pos(), Note: typeShort(in.Type())})
+		}
 		return avSlice{o: o, n: n}
 	case *ssa.Slice:
 		x := e.val(fr, st, in.X)
